@@ -66,7 +66,9 @@ CheckFill(src, items, i1, i2, plain, map, j1, j2, pa, na, acc) ==
       a1 == IF Extra # {} THEN Upd(acc, "c03", "extra-text@" \o ToString(Min(Extra)) \o ":" \o plain[Min(Extra)]) ELSE acc
       a2 == IF Unfilled # {} THEN Upd(a1, "c03", "generated-text-missing:" \o items[Min(Unfilled)].ch \o "@item" \o ToString(Min(Unfilled))) ELSE a1
       a3 == IF GenPos # {} THEN Upd(a2, "c04", "generated-char-outside-span@" \o ToString(Min(GenPos))) ELSE a2
-      a4 == IF WsPos # {} THEN Upd(a3, "c04", "white-space-neither-copy-nor-in-span@" \o ToString(Min(WsPos))) ELSE a3
+      \* white space that is no faithful copy: where nothing generates white space it must be a (shifted) copy -> C02
+      a4 == IF WsPos # {} THEN Upd(a3, IF G = {} THEN "c02" ELSE "c04",
+                                   (IF G = {} THEN "copied-space-maps-to-another-character@" ELSE "white-space-neither-copy-nor-in-span@") \o ToString(Min(WsPos))) ELSE a3
       a5 == IF WsOrd # {} THEN Upd(a4, "c02", "copied-space-outside-neighbours@" \o ToString(Min(WsOrd))) ELSE a4
       a6 == IF S \in {"glue", "blank", "par"} /\ Extra = {} /\ AllSpace(fill) /\ SepClass(fill) # S
             THEN Upd(a5, "c05", "separator-expected-" \o S \o "-got-" \o SepClass(fill) \o "@" \o ToString(j1)) ELSE a5
